@@ -73,16 +73,14 @@ theorem zero_pilot [HasExp K] {b : Batt K} (hb : Inv b) (ν : K) {V T : K} (hV :
     · exact ⟨_, contCharge_zero b ν hV hT, rfl, rfl⟩
     · obtain ⟨h0, h1, _, _⟩ := stepPower_bounds hb ν (le_refl (0 : K)) hV hT
       have hz : stepPower b 0 V T ν = 0 := le_antisymm (by simpa using h1) h0
-      refine ⟨_, ?_, ?_, ?_⟩
-      · rw [stepCharge_ok b 0 ν hV hT hb.cap_pos.ne', hz]; simp
-      · simp
-      · simp
+      have e : stepCharge b 0 V T ν = .ok ({ b with power := 0 }, 0) := by
+        rw [stepCharge_ok b 0 ν hV hT hb.cap_pos.ne', hz]; simp
+      exact ⟨_, e, rfl, rfl⟩
   · obtain ⟨h0, h1, _, _⟩ := idealPower_bounds hb (le_refl (0 : K)) hV hT
     have hz : idealPower b 0 V T = 0 := le_antisymm (by simpa using h1) h0
-    refine ⟨_, ?_, ?_, ?_⟩
-    · rw [idealCharge_ok b 0 hV hT, hz]; simp
-    · simp
-    · simp
+    have e : idealCharge b 0 V T = .ok ({ b with power := 0 }, 0) := by
+      rw [idealCharge_ok b 0 hV hT, hz]; simp
+    exact ⟨_, e, rfl, rfl⟩
 
 end field
 
@@ -132,7 +130,7 @@ theorem twoStage_closed_form_regimes {s ts pd0 md : ℝ} (hmd : 0 < md) (hpd : 0
   have hw : κ * (1 - s) / p = (1 - s) / a := by rw [hpa]; field_simp
   rw [hw, mul_one]
   refine ⟨?_, ?_, ?_, ?_⟩
-  · unfold contPts; rw [ha_def, hκ_def]; field_simp; ring
+  · unfold contPts; rw [ha_def, hκ_def]; field_simp; ring_nf
   · intro h
     have hw1 : 1 < (1 - s) / a := by rw [lt_div_iff₀ ha]; nlinarith
     have : κ ≤ (1 - s) / a - 1 := by
